@@ -12,6 +12,17 @@ for d in sorted(glob.glob("/verif/seeded/C*m[0-9]")):
             res[t] = "DETECTED" if r.get("exit") == 1 else ("missed (exit 0)" if r.get("exit") == 0 else "inconclusive (exit 2)")
             res[t + "_lines"] = r.get("lines", [])[:2]
             res[t + "_wall"] = r.get("wall_s")
+    # record in meta.json what was run against this change and what it said
+    runs = []
+    for t in ("quick", "thorough"):
+        pth = d + "/check_%s.json" % t
+        if os.path.exists(pth):
+            r = json.load(open(pth))
+            runs.append({"check": meta["property"], "tier": t, "command": "VERIF_REPO=<scratch worktree with the change applied> ./check %s --tier %s (vp/seedtest.py checkwt)" % (meta["property"], t),
+                         "exit": r.get("exit"), "verdict": res.get(t), "lines": r.get("lines", [])[:3], "wall_s": r.get("wall_s"), "history": r.get("history")})
+    if runs:
+        meta["checks_run"] = runs
+        json.dump(meta, open(d + "/meta.json", "w"), indent=1)
     what = " ".join(meta["needs_to_manifest"][:2])[:260].replace("|", "/").replace("\n", " ")
     rows.append((os.path.basename(d), meta["property"], what, res, meta.get("note", ""), meta.get("checks_run")))
 L = ["# SENSITIVITY — seeded changes vs. checks", "",
